@@ -508,14 +508,21 @@ class C09(Spec):
     coq_targets = ["Props/C09.vo"]
     prop_module = "Props.C09"
     theorems = ["C09_field_idents_legal", "C09_keywords_complete", "C09_keywords_complete_identifier", "C09_keywords_escaped", "C09_variant_idents_legal",
-                "C09_type_idents_legal", "C09_refuted_variant_Self", "C09_mangle_collision_refuted"]
+                "C09_type_idents_legal", "C09_refuted_variant_Self", "C09_mangle_collision_refuted",
+                "C09_no_collision", "C09_field_name_no_trailing_underscore", "C09_consts_typed_partial", "C09_const_declared_type",
+                "C09_refuted_const_on_optional_type", "C09_refuted_const_negative_on_unsigned"]
     builds = [("default", "dev")]
     level_text = ("Partial by design (DESIGN.md section 8): 'rustc accepts' is checked by running the real rustc on the generated files "
                   "of a zoo of modules (harness/h_e2e, cargo check), the logic core (identifiers legal, keywords escaped, no collisions, "
                   "integer constants fit their type) by an oracle over the identifiers the generator really emitted (op 3402). "
                   "Ops 3402/3403 have NO Coq counterpart: the model/implementation line comparison is vacuous for them (model_line maps "
                   "them to the unknown op 3400, canon erases both answers); op 3410 (name mangling) is compared with the Coq model "
-                  "Front/Codegen.v line by line.")
+                  "Front/Codegen.v line by line. Proved in Coq on that model (Props/C09.v): emitted field / variant / type names are legal "
+                  "identifiers and no keywords (outside the class `Self`); C09_no_collision: under the explicit hypothesis that the MANGLED "
+                  "names are pairwise different (the mangling itself is refuted as non-injective, F09-3..8) the EMITTED field, variant and "
+                  "type names are pairwise different per namespace (the keyword escape adds no collision); C09_consts_typed_partial: the "
+                  "decimal literal fmt_const prints for an INTEGER constant is a value of the declared integer type outside F09-9 / F09-10 "
+                  "(associated constants, value references, other constant types, derives and type checking: oracle / rustc only).")
     rule = ("identifier pool: every strict and reserved keyword of the Rust 2021 edition at every position ASN.1 allows (component, "
             "extension-root component, SET component, alternative, ENUMERATED item, named number, named bit, value reference, type "
             "reference (capitalised), inline type, module reference), hyphen/underscore/case variants and well-known Rust names at the "
